@@ -512,6 +512,18 @@ func modelLine(c Case, cfg string) string {
 var modelCfg = "111111"
 
 func runCase(c Case) {
+	// archive/tar cannot encode a regular entry whose name ends in a slash (replay files may ask for it)
+	for i := range c.Pushes {
+		for j, e := range c.Pushes[i].Entries {
+			if e.Kind == "r" && strings.HasSuffix(e.Name, "/") {
+				n := strings.TrimRight(e.Name, "/")
+				if n == "" {
+					n = "."
+				}
+				c.Pushes[i].Entries[j].Name = n
+			}
+		}
+	}
 	id := run.NewID()
 	// fresh tree
 	os.Chdir("/")
